@@ -387,6 +387,28 @@ func DrawConforming(t *rapid.T, o GenOpt) Case {
 			c.Inv.Meta = append(c.Inv.Meta, val.KV{K: fmt.Sprintf("m%d", j), V: val.Str(rapid.SampledFrom([]string{"x", "", "meta"}).Draw(t, "mv"))})
 		}
 	}
+	if rapid.IntRange(0, 5).Draw(t, "wellknown") == 2 {
+		// a command with a meaning of its own in the UCAN specifications (revocation, attestation ...) with the
+		// arguments such a command carries, under delegations that cover it: the rules of the chain are the rules
+		// for EVERY command
+		wk := rapid.SampledFrom([]string{"/ucan/revoke", "/ucan/revoke", "/ucan/attest", "/ucan", "/ucan/assert/claim", "/crud/read", "/msg/send", "/wasm/run"}).Draw(t, "wk_cmd")
+		c.Inv.Cmd = wk
+		for i := range c.Links {
+			c.Links[i].Cmd = rapid.SampledFrom([]string{"/", "/", wk, wk[:strings.LastIndex(wk, "/")+1][:max(1, strings.LastIndex(wk, "/"))]}).Draw(t, "wk_link")
+		}
+		// keep the commands narrowing towards the invocation: sort by length, longest nearest to the invoker
+		for i := 0; i+1 < len(c.Links); i++ {
+			for j := i + 1; j < len(c.Links); j++ {
+				if len(c.Links[j].Cmd) > len(c.Links[i].Cmd) {
+					c.Links[i].Cmd, c.Links[j].Cmd = c.Links[j].Cmd, c.Links[i].Cmd
+				}
+			}
+		}
+		c.Inv.UcanArg = rapid.IntRange(1, 2).Draw(t, "wk_ucanarg")
+		for i := range c.Links {
+			c.Links[i].Pol = nil // statements drawn for the earlier arguments do not apply any more
+		}
+	}
 	if rapid.IntRange(0, 3).Draw(t, "reseal") == 1 {
 		for i := range c.Links {
 			c.Links[i].Reseal = rapid.IntRange(0, 3).Draw(t, "reseal_n")
